@@ -4,6 +4,7 @@ import tables as T
 from cfg import cfg_of
 from flow import Taint, Tracker, callee_matches, field_reads, op_local, prep, backward
 from rules import CallGuard, CallSink, CmpGuard, RetSink, AggSink, BlockSink, FieldOptGuard, compare_sites
+from rules import returned_directly
 from rules import PL, closure_truth_table
 from props.C04 import call_results
 from props.C10 import len_of, reads
@@ -111,6 +112,13 @@ def run(R):
         if not okp:
             R.viol("C18.add.p2p.match", "p2p-match", "the component searched for in add_addr is not a single Protocol variant (P2p)", aa, aa.lines[0])
         R.inst("C18.add.p2p.match", "K7 table agreement", "find(|p| matches!(p, Protocol::P2p(_)))", len(fcl), okp)
+        # what is stored (and looked up) is the crafted address, not the raw input that was merely checked
+        crafted = Taint(aa, through="all").closure(call_results([AB + "craft_valid_multiaddr"])(aa))
+        news = [b for b in aa.blocks if b["term"]["k"] == "call" and not b["cleanup"] and callee_matches(b["term"], [AB + "BootstrapAddr::new", AB + "BootstrapAddresses::get_addr_mut", AB + "BootstrapAddresses::get_addr"])]
+        oks_ = bool(news) and all(any(op_local(a) in crafted for a in b["term"]["args"]) for b in news)
+        if not oks_:
+            R.viol("C18.add.stored", "raw-address-stored", "add_addr stores or looks up the raw input address instead of the one craft_valid_multiaddr returned (an un-normalised multiaddr enters the cache)", aa, aa.lines[0])
+        R.inst("C18.add.stored", "K6 flows-to", "BootstrapAddr::new / get_addr_mut in add_addr take the crafted address", len(news), oks_)
         # (3) cleanup after every insertion
         insb = set(ins.blocks(aa))
         cl = set(CallSink(BCS + "::perform_cleanup", CD + "::perform_cleanup").blocks(aa))
@@ -250,7 +258,7 @@ def run(R):
             fa = any(d == op_local(s["b"]) for d, r, p in field_reads(ir, "failure_count"))
             sb = any(d == op_local(s["b"]) for d, r, p in field_reads(ir, "success_count"))
             fb = any(d == op_local(s["a"]) for d, r, p in field_reads(ir, "failure_count"))
-            if (sa and fa and s["op"] == "Ge" and s["d"] == 0) or (sb and fb and s["op"] == "Le" and s["d"] == 0):
+            if (sa and fa and s["op"] == "Ge" and returned_directly(ir, s)) or (sb and fb and s["op"] == "Le" and returned_directly(ir, s)):
                 ok = True
         if not ok:
             R.viol("C18.reliable", "reliable-polarity", "is_reliable is not success_count >= failure_count", ir, ir.lines[0])
